@@ -42,6 +42,10 @@ def pose_pool():
         ["SE3", [1.0, 2.0, 3.0] + Q2],
         ["SE3", [0.0, 0.0, 0.0, 0.0, 0.0, 0.0, 1.0]],
         ["SE3", [-40.0, 0.5, 7.0] + [-x for x in Q1]],
+        # poses whose norm is far below 1 (the tolerance is relative to the norm, floored at tol - not at 1)
+        ["R2", [5e-5, -3e-5]],
+        ["SE2", [4e-5, 2e-5, -5e-5]],
+        ["R3", [2e-5, -6e-5, 3e-5]],
     ]
 
 
@@ -90,6 +94,10 @@ def edge_pool():
         {"k": "tern", "ids": [0, 1, 2], "om": _eye(2), "est": [0.5, -0.5]},
         {"k": "subodo", "ids": [0, 1], "om": _eye(3), "est": ps[6]},  # a SUBCLASS of the odometry edge with the same data as entry 0: a type difference
         {"k": "sublm", "ids": [0, 1], "om": _eye(2), "est": ps[0], "off": ps[8], "off_id": 0},
+        # one custom class, different numbers of constrained vertices (id lists that are prefixes of each other)
+        {"k": "vararity", "ids": [0], "om": _eye(2), "est": [0.5, -0.5]},
+        {"k": "vararity", "ids": [0, 1], "om": _eye(2), "est": [0.5, -0.5]},
+        {"k": "vararity", "ids": [0, 1, 2], "om": _eye(2), "est": [0.5, -0.5]},
         {"k": "scalar", "ids": [0, 1], "om": _eye(1), "est": 1.5},
         {"k": "scalar", "ids": [0, 1], "om": _eye(1), "est": 0.0},
     ]
@@ -142,6 +150,11 @@ def mk_vertex(d):
     return I.Vertex(d["id"], mk_pose(d["pose"]))
 
 
+class _VarArity(CE._Custom):
+    def calc_error(self):
+        return sum(v.pose.position[:2] for v in self.vertices) / len(self.vertices) - self.estimate
+
+
 class _SubOdo(I.EdgeOdometry):
     pass
 
@@ -153,6 +166,8 @@ class _SubLm(I.EdgeLandmark):
 def mk_edge(d):
     om = np.array(d["om"], dtype=float)
     k = d["k"]
+    if k == "vararity":
+        return _VarArity(list(d["ids"]), om, np.array(d["est"], dtype=float))
     if k == "subodo":
         return _SubOdo(list(d["ids"]), om, mk_pose(d["est"]))
     if k == "sublm":
